@@ -79,8 +79,9 @@ def _strip_x3(text: str, log: list) -> str:
 
 def _loop_key(t: str):
     """`//@ loop 2 <<` -> 2 (ordinal);  `//@ loop \`for ridx in\` <<` -> 'for ridx in' (the loop whose header contains it)"""
-    m = re.match(r"//@ \w+ `(.*)` <<", t)
-    return m.group(1) if m else int(t.split()[2])
+    m = re.match(r"//@ \w+(\?)? `(.*)` <<", t)
+    # a `?` after the directive name (`//@ loop? \`for x in\` <<`) makes it optional: no such loop, no insertion
+    return (("?" if m.group(1) else "") + m.group(2)) if m else int(t.split()[2])
 
 
 def parse_template(path: str):
@@ -132,7 +133,7 @@ def parse_template(path: str):
                     blk["post"], i = multiline(i)
                 elif t.startswith("//@ dec <<"):
                     blk["dec"], i = multiline(i)
-                elif t.startswith("//@ loop "):
+                elif t.startswith("//@ loop ") or t.startswith("//@ loop? "):
                     n = _loop_key(t)
                     blk["loops"][n], i = multiline(i)
                 elif re.match(r"//@ (before|after|afterall|beforeall)(#\d+)?\?? `", t):
@@ -146,16 +147,16 @@ def parse_template(path: str):
                     m = _M(m0.group(1) + (m0.group(2) or "") + ("?" if m0.opt else ""), m0.group(3))
                     body, i = multiline(i)
                     blk["inserts"].append((m.group(1), m.group(2), body))
-                elif t.startswith("//@ afterloop "):
+                elif t.startswith("//@ afterloop ") or t.startswith("//@ afterloop? "):
                     n = _loop_key(t)
                     body, i = multiline(i)
                     blk["inserts"].append(("afterloop", n, body))
-                elif t.startswith("//@ startloop "):
+                elif t.startswith("//@ startloop ") or t.startswith("//@ startloop? "):
                     # proof text placed at the very start of the body of loop ordinal n (after its opening brace)
                     n = _loop_key(t)
                     body, i = multiline(i)
                     blk["inserts"].append(("startloop", n, body))
-                elif t.startswith("//@ endloop "):
+                elif t.startswith("//@ endloop ") or t.startswith("//@ endloop? "):
                     # proof text placed at the very end of the body of loop ordinal n (before its closing brace)
                     n = _loop_key(t)
                     body, i = multiline(i)
@@ -380,12 +381,18 @@ def build_item(repo: str, blk: dict, report: dict):
         # an ordinal, or the first loop whose header (keyword .. opening brace) contains the anchor text
         if isinstance(k, int):
             return k
+        opt = k.startswith("?")
+        k = k.lstrip("?")
         for q, (a, b) in enumerate(loops):
             if k in body[a:b]:
                 return q
+        if opt:
+            return None
         raise LostAnchor(f"{key}: no loop with `{k}` in its header ({len(loops)} loops)")
     for n, txt in blk["loops"].items():
         n = loop_no(n)
+        if n is None:
+            continue
         if n >= len(loops):
             raise LostAnchor(f"{key}: loop #{n} not found ({len(loops)} loops)")
         ins.append((loops[n][1], "\n" + txt + "\n", "inv"))
@@ -395,6 +402,8 @@ def build_item(repo: str, blk: dict, report: dict):
             continue
         if where in ("afterloop", "startloop", "endloop"):
             anchor = loop_no(anchor)
+            if anchor is None:
+                continue
         if where == "afterloop":
             if anchor >= len(loops):
                 raise LostAnchor(f"{key}: loop #{anchor} not found ({len(loops)} loops)")
